@@ -60,6 +60,12 @@ func TestVerifC16(t *testing.T) {
 		}
 		c16HeartbeatSender(out)
 	}()
+	// whatever needs seconds to pass: stalled networks, sessions used after the context of their handshake ended
+	bg.Add(1)
+	go func() {
+		defer bg.Done()
+		c16TimeDimension(out, thorough)
+	}()
 
 	var timing []string
 	timed := func(name string, f func()) {
@@ -90,7 +96,7 @@ func TestVerifC16(t *testing.T) {
 	timed("flow", func() {
 		nflow := vlib.Budget(60, 1000)
 		for i := 0; i < nflow; i++ {
-			c16FlowCase(out, c16FlowGen(r, r.Range(3, 40)))
+			c16FlowCase(out, c16FlowGen(r, r.Range(3, 40), 0))
 		}
 	})
 
@@ -170,6 +176,9 @@ func c16Replay(t *testing.T, out *vlib.Out, path string) {
 	}
 	for _, line := range strings.Split(string(b), "\n") {
 		f := strings.Split(line, "|")
+		if c16ReplayTime(out, line) {
+			continue
+		}
 		switch {
 		case (f[0] == "sctp" || f[0] == "hbsctp") && len(f) == 5:
 			c := &c16ReadCase{hbMode: f[0] == "hbsctp"}
